@@ -205,6 +205,27 @@ def undo_total(ctx, crate, crs, tag):
                     continue
                 if c.kind == "discr" and c.src and c.src["k"] == "call" and c.src["t"]["f"]["name"] == "last":
                     kinds.add("empty")
+                elif c.kind == "bool" and c.src and c.src.get("k") == "call" and c.src["t"]["f"]["name"] == "is_some_and" and \
+                        any(lab is False for lab, _t in outs):
+                    # `while stack.last().is_some_and(|d| level(d) > target)`: leaves the loop on None or when the
+                    # closure's comparison is false
+                    ld, _ = q.origin_thru(b, c.src["t"]["args"][0], transparent=set())
+                    cd = b.origin(c.src["t"]["args"][1])
+                    okcl = False
+                    if cd["k"] == "rvalue" and cd["r"].get("ak") == "closure":
+                        cb = crate.by_path.get(cd["r"]["def"])
+                        if cb is not None:
+                            for ii, jj, ss in cb.assigns():
+                                r = ss["r"]
+                                if ss["p"]["l"] == 0 and r["k"] == "bin" and r["op"] == "Gt":
+                                    a, _ = q.origin_thru(cb, r["a"], transparent=set())
+                                    bb2, _ = q.origin_thru(cb, r["b"], transparent=set())
+                                    okcl = a["k"] == "call" and a["t"]["f"]["name"] == "level" and bb2["k"] == "arg"
+                    if ld["k"] == "call" and ld["t"]["f"]["name"] == "last" and okcl:
+                        kinds.add("empty")
+                        kinds.add("level<=target")
+                    else:
+                        kinds.add("other")
                 elif c.kind == "cmp" and c.op == "Le":
                     a, _ = q.origin_thru(b, c.a, transparent=set())
                     bb_, _ = q.origin_thru(b, c.b, transparent=set())
